@@ -59,9 +59,20 @@ type evt struct {
 // to another assignment of the same variable (or to the end of the function)
 // without any read of the variable in between.
 func errKills(w *World, p *packagesPackage, fd *ast.FuncDecl, body *ast.BlockStmt, errT types.Type) ([]droppedErr, int) {
-	// variables referenced inside nested function literals are skipped (order of use unknown)
+	// local helper closures (`f := func(…){…}` that is only ever called): a call of f is an event on the
+	// error variables f assigns on every path, so `a = f(x); b = f(y); if err != nil` shows the first
+	// verdict being overwritten unread
+	localDefs := localClosureDefs(p, body, errT)
+	isLocalLit := map[*ast.FuncLit]bool{}
+	for _, ld := range localDefs {
+		isLocalLit[ld.lit] = true
+	}
+	// variables referenced inside other nested function literals are skipped (order of use unknown)
 	captured := map[types.Object]bool{}
 	ast.Inspect(body, func(x ast.Node) bool {
+		if fl, ok := x.(*ast.FuncLit); ok && fl.Body != body && isLocalLit[fl] {
+			return false
+		}
 		if fl, ok := x.(*ast.FuncLit); ok && fl.Body != body {
 			ast.Inspect(fl.Body, func(y ast.Node) bool {
 				if id, ok := y.(*ast.Ident); ok {
@@ -150,6 +161,27 @@ func errKills(w *World, p *packagesPackage, fd *ast.FuncDecl, body *ast.BlockStm
 			default:
 				addUses(node, nil)
 			}
+			// calls of local helper closures inside this node
+			ast.Inspect(node, func(y ast.Node) bool {
+				if _, ok := y.(*ast.FuncLit); ok {
+					return false
+				}
+				ce, ok := y.(*ast.CallExpr)
+				if !ok {
+					return true
+				}
+				id, ok := ce.Fun.(*ast.Ident)
+				if !ok {
+					return true
+				}
+				if ld, ok := localDefs[p.TypesInfo.Uses[id]]; ok {
+					for _, o := range ld.defs {
+						evs = append([]evt{{obj: o, def: true, call: ce}}, evs...)
+						ncalls++
+					}
+				}
+				return true
+			})
 			events[b] = append(events[b], evs...)
 		}
 	}
@@ -253,4 +285,145 @@ func errRule(w *World, r *Report, rule string, pkgs []string, reviewed map[strin
 	}
 	r.OK(rule, "calls returning an error in "+strings.Join(pkgs, ","), token.NoPos, fmt.Sprintf("%d calls inspected: every error bound to a variable is examined (explicit `_` discards are covered by the dropped-error-then-use rules)", total))
 	r.Count(rule+": calls with an error result", total)
+}
+
+type localClosure struct {
+	lit  *ast.FuncLit
+	defs []types.Object // captured error variables assigned on every path through the closure
+}
+
+// localClosureDefs finds `name := func(...) {...}` in body where name is used
+// only as the callee of calls, and lists the captured error variables that
+// the closure assigns on every path (and does not read before assigning).
+func localClosureDefs(p *packagesPackage, body *ast.BlockStmt, errT types.Type) map[types.Object]localClosure {
+	out := map[types.Object]localClosure{}
+	cands := map[types.Object]*ast.FuncLit{}
+	ast.Inspect(body, func(x ast.Node) bool {
+		as, ok := x.(*ast.AssignStmt)
+		if !ok || as.Tok != token.DEFINE || len(as.Lhs) != 1 || len(as.Rhs) != 1 {
+			return true
+		}
+		fl, ok := as.Rhs[0].(*ast.FuncLit)
+		id, ok2 := as.Lhs[0].(*ast.Ident)
+		if ok && ok2 {
+			if o := p.TypesInfo.Defs[id]; o != nil {
+				cands[o] = fl
+			}
+		}
+		return true
+	})
+	for o, fl := range cands {
+		// every use of the name is a call
+		onlyCalled := true
+		ast.Inspect(body, func(x ast.Node) bool {
+			switch y := x.(type) {
+			case *ast.CallExpr:
+				if id, ok := y.Fun.(*ast.Ident); ok && p.TypesInfo.Uses[id] == o {
+					for _, a := range y.Args {
+						ast.Inspect(a, func(z ast.Node) bool {
+							if id2, ok := z.(*ast.Ident); ok && p.TypesInfo.Uses[id2] == o {
+								onlyCalled = false
+							}
+							return true
+						})
+					}
+					return false
+				}
+			case *ast.Ident:
+				if p.TypesInfo.Uses[y] == o {
+					onlyCalled = false
+				}
+			}
+			return true
+		})
+		if !onlyCalled {
+			continue
+		}
+		// captured error variables assigned in the closure
+		assigned := map[types.Object]bool{}
+		ast.Inspect(fl.Body, func(x ast.Node) bool {
+			if as, ok := x.(*ast.AssignStmt); ok && as.Tok == token.ASSIGN {
+				for _, l := range as.Lhs {
+					if id, ok := l.(*ast.Ident); ok {
+						if v, ok := p.TypesInfo.Uses[id].(*types.Var); ok && types.Identical(v.Type(), errT) && !(fl.Pos() <= v.Pos() && v.Pos() <= fl.End()) {
+							assigned[v] = true
+						}
+					}
+				}
+			}
+			return true
+		})
+		var defs []types.Object
+		for v := range assigned {
+			if mustAssign(p, fl.Body, v) {
+				defs = append(defs, v)
+			}
+		}
+		if len(defs) > 0 {
+			out[o] = localClosure{lit: fl, defs: defs}
+		}
+	}
+	return out
+}
+
+// mustAssign: on every path from the entry of body to an exit, v is assigned
+// before it is read.
+func mustAssign(p *packagesPackage, body *ast.BlockStmt, v types.Object) bool {
+	g := cfg.New(body, func(ce *ast.CallExpr) bool { return true })
+	if len(g.Blocks) == 0 {
+		return false
+	}
+	// state per block entry: 1 = not yet assigned reachable
+	type st = bool
+	unassignedIn := map[*cfg.Block]bool{g.Blocks[0]: true}
+	ok := true
+	for changed := true; changed; {
+		changed = false
+		for _, b := range g.Blocks {
+			if !unassignedIn[b] {
+				continue
+			}
+			un := true
+			for _, node := range b.Nodes {
+				if !un {
+					break
+				}
+				// reads before an assignment?
+				if as, isAs := node.(*ast.AssignStmt); isAs {
+					for _, r := range as.Rhs {
+						ast.Inspect(r, func(z ast.Node) bool {
+							if id, ok2 := z.(*ast.Ident); ok2 && p.TypesInfo.Uses[id] == v {
+								ok = false
+							}
+							return true
+						})
+					}
+					for _, l := range as.Lhs {
+						if id, ok2 := l.(*ast.Ident); ok2 && p.TypesInfo.Uses[id] == v {
+							un = false
+						}
+					}
+					continue
+				}
+				ast.Inspect(node, func(z ast.Node) bool {
+					if id, ok2 := z.(*ast.Ident); ok2 && p.TypesInfo.Uses[id] == v {
+						ok = false
+					}
+					return true
+				})
+			}
+			if un {
+				if len(b.Succs) == 0 && b.Live {
+					ok = false // reaches an exit unassigned
+				}
+				for _, s := range b.Succs {
+					if !unassignedIn[s] {
+						unassignedIn[s] = true
+						changed = true
+					}
+				}
+			}
+		}
+	}
+	return ok
 }
